@@ -358,10 +358,10 @@ Definition v1_penalty (s : state) (app asset amt : Z) : outcome state :=
   lift s1 (set_net_fee (cs s1) app asset amt)).
 
 (* generation-2 dutch close (bid.go) / TriggerEsm: coins in the DEBT denom, booked under
-   CollateralAssetId *)
+   DebtAssetId (since the fix of C13-F1; before, under CollateralAssetId) *)
 Definition v2_penalty (s : state) (app coll_asset debt_asset amt : Z) : outcome state :=
   obind (if amt >? 0 then lift s (csend (cs s) A_EXT A_COLLECTOR debt_asset amt) else Ok s) (fun s1 =>
-  lift s1 (set_net_fee (cs s1) app coll_asset amt)).
+  lift s1 (set_net_fee (cs s1) app debt_asset amt)).
 
 Definition flags_of (s : state) (app asset : Z) : aflags :=
   match amp (cs s) (app, asset) with Some f => f | None => mkAF false false false false end.
@@ -433,9 +433,17 @@ Definition v2_check_stats (s : state) (app asset : Z) : outcome state :=
       | None => Ok s
       | Some x =>
           obind (if (x <=? cl_debt_thr cl - cl_lot cl) && af_debt f
-                 then lift s (set_auction_mapping (cs s) app asset (with_active f true))
+                 then (* DebtTokenAmount returns sdk.Coin{} pairs when CollectorAssetId / SecondaryAssetId name
+                         no asset; CreateLockedVault then panics in sdk.NewCoin("", ...) *)
+                      if negb (has_asset (cs s) (cl_asset cl) && has_asset (cs s) (cl_secondary cl)) then Panic
+                      else lift s (set_auction_mapping (cs s) app asset (with_active f true))
                  else Ok s) (fun s1 =>
           if (x >=? cl_surplus_thr cl + cl_lot cl) && af_surplus f then
+            (* SurplusTokenAmount returns sdk.Coin{} when CollectorAssetId / SecondaryAssetId name no asset
+               (both are 0 in a record first written by WasmUpdateCollectorLookupTable):
+               GetAmountFromCollector then calls IsNegative on a nil Int *)
+            if negb (has_asset (cs s1) (cl_asset cl) && has_asset (cs s1) (cl_secondary cl)) then Panic
+            else
             obind (lift s1 (get_amount_from_collector (cs s1) app asset (cl_lot cl))) (fun s2 =>
             lift s2 (set_auction_mapping (cs s2) app asset (with_active f true)))
           else Ok s1)
@@ -597,7 +605,7 @@ Definition nf_delta_spec (s : state) (o : op) (k : key) : Z :=
   | DecNetFee app asset amt => at_key app asset k (- amt)
   | SurplusFund app asset u denom amt => at_key app asset k (- amt)
   | V1Penalty app asset amt => at_key app asset k amt
-  | V2Penalty app ca da amt => at_key app ca k amt
+  | V2Penalty app ca da amt => at_key app da k amt
   | V1SurplusClose app asset lot bidder esm => if bidder && negb esm then 0 else at_key app asset k lot
   | V1DebtClose app asset amt bids esm => if esm then 0 else if bids then at_key app asset k amt else 0
   | V2SurplusClose app asset lot => at_key app asset k lot
@@ -639,9 +647,8 @@ Definition holds_C13_flow (apps assets : list Z) (s : state) (o : op) (s' : stat
     end) assets.
 
 (* ---- known-finding classes (DESIGN.md section 5) ---- *)
-(* C13-F1: generation-2 penalty booked under the collateral asset while the coins are debt-denom *)
-Definition kf_C13_1 (o : op) : bool :=
-  match o with V2Penalty app ca da amt => negb (ca =? da) && (amt >? 0) | _ => false end.
+(* C13-F1 (generation-2 penalty booked under the collateral asset while the coins are debt-denom)
+   is repaired in /repo: its class kf_C13_1 is gone *)
 (* C13-F2: generation-2 surplus auction: start sends the lot to the generation-1 auction account,
    close takes it from the collector again and re-credits the net fees *)
 Definition kf_C13_2 (o : op) : bool :=
@@ -651,4 +658,83 @@ Definition kf_C13_2 (o : op) : bool :=
 Definition kf_C13_3 (o : op) : bool :=
   match o with V2DebtClose app asset ca dd da => negb ((dd =? asset) && (ca =? da)) | _ => false end.
 
-Definition kf_C13_any (o : op) : bool := kf_C13_1 o || kf_C13_2 o || kf_C13_3 o.
+Definition kf_C13_any (o : op) : bool := kf_C13_2 o || kf_C13_3 o.
+
+(* ------------------------------------------------------------------------------------ *)
+(* Hypotheses of the property theorems (Properties/C13.v), executable.                   *)
+(* users are accounts >= 0 (so they differ from the module accounts); DecreaseNetFeeCollectedData
+   is never called with a negative amount (none of its call sites can); WasmMsgGetSurplusFund is
+   called with the coin of the asset it names (the contract supplies both) *)
+Definition valid_op (o : op) : bool :=
+  match o with
+  | LCreate u _ _ _ => 0 <=? u
+  | LDeposit u _ _ _ _ _ => 0 <=? u
+  | LWithdraw u _ _ _ _ _ => 0 <=? u
+  | LClose u _ _ _ _ => 0 <=? u
+  | SurplusFund app asset u denom amt => (0 <=? u) && (denom =? asset)
+  | DecNetFee _ _ amt => 0 <=? amt
+  | _ => true
+  end.
+
+(* the state every history starts from: nothing but funded users *)
+Definition genesis (assets apps : Z -> bool) (funds : list (Z * Z * Z)) : state :=
+  fold_left (fun s f => match f with (u, d, amt) => fund_user s u d amt end) funds (init_state assets apps).
+Definition valid_fund (f : Z * Z * Z) : bool := match f with (u, _, _) => 0 <=? u end.
+
+(* the (app, asset) whose net-fee record an op can change *)
+Definition op_key (s : state) (o : op) : option key :=
+  match o with
+  | LDeposit _ app asset _ _ _ | LWithdraw _ app asset _ _ _ | LClose _ app asset _ _ => Some (app, asset)
+  | LRewardCalc app lid _ => match find_locker (lockers s) lid with Some ld => Some (app, l_asset ld) | None => None end
+  | UpdLookup app asset _ _ _ _ _ _ => Some (app, asset)
+  | FeeIn app asset _ _ | GetAmount app asset _ | DecNetFee app asset _ | SurplusFund app asset _ _ _ => Some (app, asset)
+  | V1SurplusStart app asset | V1SurplusClose app asset _ _ _ | V1DebtStart app asset | V1DebtClose app asset _ _ _
+  | V1Penalty app asset _ | V2CheckStats app asset | V2SurplusClose app asset _ | V2DebtClose app asset _ _ _ => Some (app, asset)
+  | V2Penalty app _ da _ => Some (app, da)
+  | _ => None
+  end.
+
+(* ops whose book entry is deliberately not tied to a coin movement in the same op:
+   DecreaseNetFeeCollectedData alone (book only) *)
+Definition book_only (o : op) : bool := match o with DecNetFee _ _ _ => true | _ => false end.
+
+(* ---- the per-op table, both sides: what a SUCCESSFUL op does to the book entry net_fee(k) and
+   to the collector's coin balance (one denom; every other denom is unchanged).  [s'] is only
+   consulted to see whether an auction start flipped IsAuctionActive.  The savings-rate change
+   (UpdLookup) pays one reward per locker of the lookup and is described separately. ---- *)
+Definition nf_delta_of (s s' : state) (o : op) (k : key) : Z :=
+  match o with
+  | V1SurplusStart app asset =>
+      at_key app asset k (if started s s' app asset then - lot_of s app asset else 0)
+  | V2CheckStats app asset =>
+      at_key app asset k (if started s s' app asset && af_surplus (flags_of s app asset) then - lot_of s app asset else 0)
+  | _ => nf_delta_spec s o k
+  end.
+
+Definition coin_delta_of (s s' : state) (o : op) : Z * Z :=     (* (denom, change of the collector balance) *)
+  match o with
+  | LDeposit u app asset lid amt rw => (asset, - credited s app asset lid rw)
+  | LWithdraw u app asset lid amt rw => (asset, - credited s app asset lid rw)
+  | LClose u app asset lid rw => (asset, - credited s app asset lid rw)
+  | LRewardCalc app lid rw =>
+      match find_locker (lockers s) lid with
+      | Some ld => (l_asset ld, - credited s app (l_asset ld) lid rw)
+      | None => (0, 0)
+      end
+  | FeeIn app asset amt un => (asset, amt)
+  | GetAmount app asset amt => (asset, - amt)
+  | DecNetFee app asset amt => (asset, 0)
+  | SurplusFund app asset u denom amt => (denom, - amt)
+  | V1Penalty app asset amt => (asset, amt)
+  | V2Penalty app ca da amt => (da, amt)
+  | V1SurplusClose app asset lot bidder esm => (asset, if bidder && negb esm then 0 else lot)
+  | V1DebtClose app asset amt bids esm => (asset, if esm then 0 else if bids then amt else 0)
+  | V2SurplusClose app asset lot => (asset, - lot)
+  | V2DebtClose app asset ca dd da => (dd, da)
+  | V1SurplusStart app asset => (asset, if started s s' app asset then - lot_of s app asset else 0)
+  | V2CheckStats app asset =>
+      (asset, if started s s' app asset && af_surplus (flags_of s app asset) then - lot_of s app asset else 0)
+  | _ => (0, 0)
+  end.
+
+Definition is_upd_lookup (o : op) : bool := match o with UpdLookup _ _ _ _ _ _ _ _ => true | _ => false end.
